@@ -374,6 +374,14 @@ func (a *AggregationProcess) addOrUpdateRecordInMap(flowKey *FlowKey, record ent
 			if err = a.aggregateRecords(record, aggregationRecord.Record, true, true); err != nil {
 				return err
 			}
+			// The existing record may still be waiting for correlation (its first record
+			// required it). The incoming record shows that the flow does not need
+			// correlation (e.g., it was rejected by an ingress policy on the destination
+			// node), so there is nothing left to wait for: without this the record would
+			// never become ready and would be dropped after the retries.
+			if !aggregationRecord.ReadyToSend {
+				aggregationRecord.ReadyToSend = true
+			}
 		}
 		// Reset the inactive expiry time in the queue item with updated aggregate
 		// record.
